@@ -62,7 +62,7 @@ ASSUMPTIONS = [
     "compared as a multiset",
 ]
 SHARDS = {"quick": 16, "thorough": 16}
-SOFT_BUDGET_S = {"quick": 120, "thorough": 3000}
+SOFT_BUDGET_S = {"quick": 200, "thorough": 3000}
 
 WIN = 2
 SPELLS = ("lit", "diff", "const")
